@@ -84,14 +84,15 @@ def main():
         rep.add_broken("forbidden-construct", h, h)
 
     # (3) implementation harness + model runner
-    okh, logh, dth = C.step_harness()
+    unit = mod.UNIT
+    okh, logh, dth = C.step_harness(unit)
     rep.extra["harness_build_s"] = round(dth, 1)
     if not okh:
         rep.add_broken("harness-build", "harness", logh[-3000:])
-    okr, logr = C.step_runner()
+    okr, logr = C.step_runner(unit)
     if not okr:
         errs = C.coq_errors(logr)
-        rep.add_broken("model-build", errs[0]["file"] if errs else "Run/Extract.v", json.dumps(errs[:3]) if errs else logr[-1500:])
+        rep.add_broken("model-build", errs[0]["file"] if errs else "Run/%sExtract.v" % unit.capitalize(), json.dumps(errs[:3]) if errs else logr[-1500:])
 
     # (4) streams and oracles
     ctx = {"tier": tier, "seed": seed, "rep": rep, "have_impl": okh, "have_model": okr, "replay": a.replay,
